@@ -2056,6 +2056,16 @@ func (ls *LState) Resume(th *LState, fn *LFunction, args ...LValue) (ResumeState
 	if ls.Status(th) == "normal" {
 		return ResumeError, newApiErrorS(ApiErrorRun, "can not resume a normal thread"), nil
 	}
+	if th.started && th.stack.IsEmpty() {
+		// the body was a Go function and it has yielded: nothing of it is left to run, so it returns
+		// what this resume passes and the coroutine is dead (as in resumeThread)
+		th.kill()
+		ret := append([]LValue{}, args...)
+		if len(ret) == 0 {
+			ret = append(ret, LNil)
+		}
+		return ResumeOK, nil, ret
+	}
 	// the frame of the body is pushed after the checks above, so that a refused resume leaves nothing behind
 	if !isstarted {
 		base := 0
@@ -2089,6 +2099,7 @@ func (ls *LState) Resume(th *LState, fn *LFunction, args ...LValue) (ResumeState
 		cf.NArgs = len(args)
 		th.initCallFrame(cf)
 		th.Panic = panicWithoutTraceback
+		th.started = true
 	} else {
 		base := th.reg.Top()
 		for _, arg := range args {
@@ -2110,7 +2121,8 @@ func (ls *LState) Resume(th *LState, fn *LFunction, args ...LValue) (ResumeState
 
 	if haserror {
 		return ResumeError, newApiError(ApiErrorRun, ret[0]), nil
-	} else if th.stack.IsEmpty() {
+	} else if th.stack.IsEmpty() && th.Dead {
+		// (an empty stack of a thread that is not dead: the body is a Go function and it has yielded)
 		return ResumeOK, nil, ret
 	}
 	return ResumeYield, nil, ret
